@@ -84,12 +84,22 @@ def T_uni(name, i):
     return [f"({name}\u00e9)=", f"TM{i} para"], [dict(name=name + "\u00e9", marker=f"TM{i} para", title=None, kind="tgt-uni", explicit=True)]
 
 
+def T_discarded(name, i):
+    # a target inside directive content that the directive throws away (a figure whose caption is a list): it names nothing
+    return ["```{figure} img.png", "- item", "", f"  ({name}gone)=", f"  TM{i} para", "```"], [dict(name="zzunused" + str(i), marker="NOSUCH", title=None, kind="discarded", explicit=True)]
+
+
+def T_slug_html(name, i):
+    # inline raw HTML in the title: skipped by the slug and by the text an empty link is filled with
+    return [f"## {name} <kbd>K</kbd> x"], [dict(name=f"{name}-k-x", marker=f"{name} <kbd>K</kbd> x", title=f"{name} K x", kind="slug-html", explicit=False, ordinal=0)]
+
+
 def T_deep_head(name, i):
     # a heading below the anchor depth (heading_anchors=3): it has a docutils implicit name, but no slug, so '#<title>' names nothing
     return ["## Mid", "", "### Low", "", f"#### {name}deep"], [dict(name="mid", marker="Mid", title="Mid", kind="slug", explicit=False, ordinal=0)]
 
 
-TK = {"slug-cap": T_slug_cap, "deep-head": T_deep_head, "tgt-uni": T_uni, "tgt-para": T_target_para, "tgt-head": T_target_head, "attr-para": T_attr_para, "attr-head": T_attr_head,
+TK = {"slug-cap": T_slug_cap, "deep-head": T_deep_head, "tgt-uni": T_uni, "discarded": T_discarded, "slug-html": T_slug_html, "tgt-para": T_target_para, "tgt-head": T_target_head, "attr-para": T_attr_para, "attr-head": T_attr_head,
       "dir-name": T_dir_name, "slug": T_slug, "slug-dup": T_slug_dup, "slug-dup3": T_slug_dup3, "tgt-case": T_case}
 FORMS = ["text", "empty", "auto", "nested"]
 CTX = {
@@ -201,10 +211,11 @@ class LinkSystem(System):
         kinds = list(TK)
         for k in kinds:
             yield [(k, "aa")]
+        core = ("tgt-para", "slug", "attr-head", "dir-name", "slug-dup")
         for a, k1 in enumerate(kinds):
             for b, k2 in enumerate(kinds):
-                if self.tier == "quick" and b < a:
-                    continue  # quick: unordered kind pairs (both orders of the explicit-vs-slug pairs follow); ordered pairs in the thorough tier
+                if self.tier == "quick" and k2 not in core:
+                    continue  # quick: every kind next to each of 5 core kinds (both orders of the explicit-vs-slug pairs follow); all ordered pairs in the thorough tier
                 yield [(k1, "aa"), (k2, "bb")]
         # priority clause: explicit target and heading slug with the same name
         for k1 in ("tgt-para", "attr-para", "dir-name", "tgt-head"):
@@ -218,7 +229,8 @@ class LinkSystem(System):
             has_case = any(k == "tgt-case" for k, _ in targets)
             names = (["aa", "bb", "zz", "aa-1"] + (["Aa-X", "aa-x"] if has_case else []) + (["Aa", "AA"] if any(k == "slug-cap" for k, _ in targets) else [])
                      + (["aadeep", "Aadeep", "bbdeep"] if any(k == "deep-head" for k, _ in targets) else []))
-            names = names + (["aa\u00e9", "zz\u00e9"] if any(k == "tgt-uni" for k, _ in targets) else []) + (["aa-2"] if any(k == "slug-dup3" for k, _ in targets) else [])
+            names = names + (["aa\u00e9", "zz\u00e9"] if any(k == "tgt-uni" for k, _ in targets) else [])
+            names = names + (["aagone", "bbgone"] if any(k == "discarded" for k, _ in targets) else []) + (["aa-k-x", "bb-k-x"] if any(k == "slug-html" for k, _ in targets) else []) + (["aa-2"] if any(k == "slug-dup3" for k, _ in targets) else [])
             if not self.two:
                 for tctx in CTX:
                     for form in FORMS:
@@ -344,6 +356,8 @@ class SphinxLinkSystem(LinkSystem):
             if c["tctx"] in ctxs and c["links"][0][2] in ctxs:
                 if self.tier == "quick" and len(c["targets"]) == 2 and c["order"] == "before":
                     continue
+                if any(k == "discarded" for k, _ in c["targets"]):
+                    continue  # Sphinx' own std domain registers the label of a discarded node (as it does for rST): not MyST's resolution
                 yield c
 
     def render(self, text):
